@@ -275,12 +275,22 @@ class Rig:
         handler = self.handler
         rig = self
 
+        blind = set()
+
         def tf(frame, event, arg):
             if only_file is not None and frame.f_code.co_filename != only_file:
                 return None
             rig.events += 1
             if rig.on_event:
                 rig.on_event(frame, event, arg, 'pre')
+            # CPython semantics, emulated (this wrapper stays installed to observe): an invocation whose `call` event the
+            # agent answered with None has no local trace function - the agent sees none of its later events
+            if event != 'call' and id(frame) in blind:
+                if event == 'return':
+                    blind.discard(id(frame))
+                if rig.on_event:
+                    rig.on_event(frame, event, arg, 'post')
+                return tf
             try:
                 r = handler.trace_call(frame, event, arg)
             except BaseException as ex:     # an escape is an observation, never re-raised into the host
@@ -288,6 +298,10 @@ class Rig:
                 r = 'escaped'
             if r is None:
                 rig.returned_none += 1
+                if event == 'call':
+                    blind.add(id(frame))
+            elif event == 'call':
+                blind.discard(id(frame))
             if rig.on_event:
                 rig.on_event(frame, event, arg, 'post')
             return tf
